@@ -13,27 +13,7 @@ PLOT = 'emsarray.plot'
 
 
 
-def _on_cells_only(ctx, fi, flow, ravel_call, rule: str, what: str) -> None:
-    """The variable flattened by `ravel_call` is known to lie on the default grid (the cells): a comparison of
-    self.get_grid_kind(<that variable>) with self.default_grid_kind dominates the call and a mismatch raises."""
-    from .common import guards as _g
-    g = _g(fi, ravel_call)
-    ok, why = False, f"guards before ravel: {g}"
-    for text, pol in g:
-        for a, b in ((' != self.default_grid_kind', False), (' == self.default_grid_kind', True)):
-            if text.endswith(a) and pol is b:
-                kind_name = text[:-len(a)]
-                # what the compared kind is the kind of
-                for n in walk_no_nested(fi.node):
-                    if isinstance(n, ast.Assign) and isinstance(n.targets[0], ast.Name) and n.targets[0].id == kind_name and isinstance(n.value, ast.Call) \
-                            and isinstance(n.value.func, ast.Attribute) and n.value.func.attr == 'get_grid_kind' and norm_text(n.value.func.value) == 'self' \
-                            and len(n.value.args) == 1 and flow.canon(n.value.args[0]) == flow.canon(ravel_call.args[0]):
-                        ok, why = True, f"{kind_name} = {norm_text(n.value)} compared with self.default_grid_kind before ravel"
-                if text.startswith('self.get_grid_kind(') and ravel_call.args and norm_text(ravel_call.args[0]) in text:
-                    ok, why = True, text
-    ctx.check(rule, ok, f"{what}: a variable on another grid (nodes, edges) is refused before it is flattened - flattened over its own grid and paired with the "
-              "cells by position it would silently give cell n the value of node n whenever the two grids have the same size", fi, ravel_call, construct=why)
-
+from .common import on_cells_only as _on_cells_only  # noqa: E402
 
 def run(ctx: Context) -> None:
     p = ctx.p
